@@ -5,6 +5,7 @@ import (
 	"math"
 	"math/big"
 	"reflect"
+	"strings"
 	"time"
 
 	"github.com/amzn/ion-go/ion"
@@ -770,8 +771,86 @@ func c17Reuse(c *mc.Ctx) {
 	c.Nontrivial()
 }
 
+// One Decoder, one annotation-wrapper variable reused for a stream of three ints, each with
+// none, one or two annotations: after each DecodeTo the wrapper holds that value's annotations.
+func c17ReuseAnnot(c *mc.Ctx) {
+	kind := c.Shard("wrapper", 3)
+	binary := c.Pick("format", 2) == 1
+	sets := [][]string{nil, {"a"}, {"a", "b"}}
+	var vals []*rm.Value
+	var want [][]string
+	for i := 0; i < 3; i++ {
+		as := sets[c.Pick("annotations", len(sets))]
+		v := rm.IntV(int64(i + 1))
+		for _, a := range as {
+			v = v.A(a)
+		}
+		vals = append(vals, v)
+		want = append(want, as)
+	}
+	var data []byte
+	if binary {
+		data = refbin.EncodeStream(rm.Canon{}, vals)
+	} else {
+		data = reftext.Print(rm.Canon{}, vals)
+	}
+	names := []string{"struct{Value int; []SymbolToken annotations}", "struct{Value interface{}; []SymbolToken annotations}", "struct{Value interface{}; []string annotations}"}
+	c.Case(func() string {
+		return fmt.Sprintf("Decoder over %s binary=%v, every value into the same %s variable", rm.StreamString(vals), binary, names[kind])
+	})
+	c.Class("reuse-annotations")
+	var a1 c17AnnInt
+	var a2 c17AnnAny
+	var a3 c17AnnReadme
+	targets := []interface{}{&a1, &a2, &a3}
+	var d *ion.Decoder
+	if failPanic(c, drive.Safe(func() { d = ion.NewDecoder(ion.NewReaderBytes(data)) })) {
+		return
+	}
+	for i := range vals {
+		var err error
+		if failPanic(c, drive.Safe(func() { err = d.DecodeTo(targets[kind]) })) {
+			return
+		}
+		c.Step(1)
+		if err != nil {
+			c.Fail("unexpected-error", "reuse-annotations", "value #%d: %v", i, err)
+			return
+		}
+		var got []string
+		var val interface{}
+		switch kind {
+		case 0:
+			val = a1.Value
+			for _, t := range a1.Ann {
+				got = append(got, drive.SymOf(t).String())
+			}
+		case 1:
+			val = a2.Value
+			for _, t := range a2.Ann {
+				got = append(got, drive.SymOf(t).String())
+			}
+		default:
+			val = a3.Value
+			got = a3.AnyName
+		}
+		if fmt.Sprint(val) != fmt.Sprint(i+1) {
+			c.Fail("value-mismatch", "reuse-annotations:value", "value #%d decoded as %v, want %d", i, val, i+1)
+			return
+		}
+		if len(got) != len(want[i]) || (len(got) > 0 && strings.Join(got, ",") != strings.Join(want[i], ",")) {
+			c.Fail("value-mismatch", "reuse-annotations:"+names[kind], "value #%d (%s) decoded into the reused wrapper with annotations %q, want %q", i, vals[i], got, want[i])
+			return
+		}
+	}
+	c.Observe(fmt.Sprint(want), kind, binary)
+	c.Nontrivial()
+}
+
 func c17Body(c *mc.Ctx) {
-	switch c.Pick("part", 4) {
+	switch c.Pick("part", 5) {
+	case 4:
+		c17ReuseAnnot(c)
 	case 0:
 		c17Matrix(c)
 	case 1:
@@ -787,7 +866,7 @@ func init() {
 	mc.Register(&mc.Check{
 		ID:    "C17",
 		Title: "Unmarshal either fills the target faithfully or returns an error",
-		Rule: "the full matrix of 86 Ion values (typed nulls, bools, integers at every Go width boundary ±1 up to 2^100, floats incl. beyond float32 range / inf / NaN / -0, decimals, timestamps, symbols with and without text, strings, lobs of 0/2/3/4 bytes, lists, sexps, structs incl. repeated and unknown fields, annotated values) x 39 target types (every integer width, floats, string, []byte, [3]byte, slices, arrays, maps, a struct, pointers, interface{}, Timestamp, Decimal, big.Int, SymbolToken, time.Time, annotation wrapper structs incl. the README's []string form) x {Unmarshal of binary, Unmarshal of text, UnmarshalString, Decoder.DecodeTo}; plus 11 struct-target cells with hand-written expectations (exact-then-case-insensitive field lookup, promoted fields of embedded structs three levels deep, every tag option, unknown fields) in text and binary; plus a Decoder over every stream of 0..3 values of 5 kinds followed by two extra calls; plus every matrix cell again with a target that already holds another value (scalars, slices of 5 elements, arrays, pointers, interface{}); plus one Decoder filling the same []int / []interface{} / [3]int / interface{} variable from every stream of three lists of 0..3 ints. " +
+		Rule: "the full matrix of 86 Ion values (typed nulls, bools, integers at every Go width boundary ±1 up to 2^100, floats incl. beyond float32 range / inf / NaN / -0, decimals, timestamps, symbols with and without text, strings, lobs of 0/2/3/4 bytes, lists, sexps, structs incl. repeated and unknown fields, annotated values) x 39 target types (every integer width, floats, string, []byte, [3]byte, slices, arrays, maps, a struct, pointers, interface{}, Timestamp, Decimal, big.Int, SymbolToken, time.Time, annotation wrapper structs incl. the README's []string form) x {Unmarshal of binary, Unmarshal of text, UnmarshalString, Decoder.DecodeTo}; plus 11 struct-target cells with hand-written expectations (exact-then-case-insensitive field lookup, promoted fields of embedded structs three levels deep, every tag option, unknown fields) in text and binary; plus a Decoder over every stream of 0..3 values of 5 kinds followed by two extra calls; plus every matrix cell again with a target that already holds another value (scalars, slices of 5 elements, arrays, pointers, interface{}); plus one Decoder filling the same []int / []interface{} / [3]int / interface{} variable from every stream of three lists of 0..3 ints, and the same annotation-wrapper variable (three wrapper types) from every stream of three ints carrying no / one / two annotations. " +
 			"Oracle from the documented mapping table: pairs outside the table must return an error; integers that do not fit the width or sign, finite floats beyond float32, textless symbols into string must return an error; pairs inside the table must succeed and the stored value must image back to the Ion value; never a panic; exactly n values then ErrNoInput. Conversions the documentation does not mention (int->float, decimal->number, timestamp->time.Time, typed null of another type, list of ints into []byte, byte arrays of another length) are exercised for panics only. " +
 			"non-trivial = the cell was executed and judged; distinct = distinct (target, verdict, outcome) digests",
 		Bounds:      map[string]string{"quick": "the whole matrix", "thorough": "the whole matrix"},
